@@ -499,6 +499,60 @@ Definition required_of (tbl : list stmt_priv) (ty stmt_db : string) : option stm
   | Some sp => if sp_simple sp then req_of_entries stmt_db (sp_entries sp) else None
   | None => None
   end.
+(* Sources.RequiredPrivileges: read on the database of every measurement; SELECT adds write on the target's database;
+   CREATE CONTINUOUS QUERY: read on its database and write on the target's if that names a database *)
+Definition sources_req (dbs : list string) : stmt := map (fun d => RDb d ReadPriv) dbs.
+Definition select_req (srcs : list string) (target : option string) : stmt :=
+  (sources_req srcs ++ match target with Some d => [RDb d WritePriv] | None => [] end)%list.
+Definition cq_req (db target : string) : stmt :=
+  RDb db ReadPriv :: (if String.eqb target "" then [] else [RDb target WritePriv]).
+
+(* ---- the cardinality statements (ShowSeriesCardinality, ShowMeasurementCardinality, ShowTagKeyCardinality,
+   ShowFieldKeyCardinality, ShowTagValuesCardinality): their requirement depends on the EXACT flag and on the sources.
+   The rule is read off the translated row, so that today's methods (C19-cardinality-no-source-unprivileged: without a FROM
+   clause nothing is asked) and the repaired ones (read on the statement's database) are both understood. ---- *)
+Definition has_db_read_entry (sp : stmt_priv) (c : string) : bool :=
+  existsb (fun e => negb (pe_admin e) && pe_rwuser e && String.eqb (pe_name e) "s.Database"
+                    && String.eqb (pe_priv e) "ReadPrivilege" && String.eqb (pe_cond e) c) (sp_entries sp).
+Definition real_entries (sp : stmt_priv) : list pentry :=
+  filter (fun e => negb (String.prefix "assign " (pe_name e))) (sp_entries sp).
+Definition delegates_to_sources (sp : stmt_priv) : bool :=
+  list_eqb String.eqb (sp_calls sp) ["s.Sources.RequiredPrivileges"].
+(* a source without a database of its own: the request's database, or - ShowTagValuesCardinality rewrites it - the statement's *)
+Definition src_dbs (sp : stmt_priv) (stmt_db : string) (srcs : list string) : list string :=
+  if existsb (fun e => String.eqb (pe_name e) "assign p.Name") (sp_entries sp)
+  then map (fun d => if String.eqb d "" then stmt_db else d) srcs else srcs.
+Definition card_rule (tbl : list stmt_priv) (ty : string) (exact : bool) (stmt_db : string) (srcs : list string) : option stmt :=
+  match find_stmt_priv tbl ty with
+  | None => None
+  | Some sp =>
+      let nosrc := match srcs with [] => true | _ => false end in
+      let dbreq := [RDb stmt_db ReadPriv] in
+      let bysrc := sources_req (src_dbs sp stmt_db srcs) in
+      if negb (delegates_to_sources sp) then None
+      else match real_entries sp with
+           | [] => Some bysrc
+           | [_] =>
+               if has_db_read_entry sp "!s.Exact || len(s.Sources) == 0" then Some (if negb exact || nosrc then dbreq else bysrc)
+               else if has_db_read_entry sp "!s.Exact" then Some (if negb exact then dbreq else bysrc)
+               else if has_db_read_entry sp "len(s.Sources) == 0" then Some (if nosrc then dbreq else bysrc)
+               else None
+           | _ => None
+           end
+  end.
+Definition cardinality_types : list string :=
+  ["ShowSeriesCardinalityStatement"; "ShowMeasurementCardinalityStatement"; "ShowTagKeyCardinalityStatement";
+   "ShowFieldKeyCardinalityStatement"; "ShowTagValuesCardinalityStatement"].
+(* the repair (fix5.patch): without a FROM clause read on the statement's database is asked *)
+Definition repair_card_row (sp : stmt_priv) : stmt_priv :=
+  let e c := mk_pentry false true "s.Database" "ReadPrivilege" c in
+  if String.eqb (sp_type sp) "ShowSeriesCardinalityStatement" || String.eqb (sp_type sp) "ShowMeasurementCardinalityStatement"
+  then mk_stmt_priv (sp_type sp) false [e "!s.Exact || len(s.Sources) == 0"] (sp_calls sp)
+  else if String.eqb (sp_type sp) "ShowTagKeyCardinalityStatement" || String.eqb (sp_type sp) "ShowFieldKeyCardinalityStatement"
+       || String.eqb (sp_type sp) "ShowTagValuesCardinalityStatement"
+  then mk_stmt_priv (sp_type sp) false (e "len(s.Sources) == 0" :: sp_entries sp) (sp_calls sp)
+  else sp.
+
 (* ---- the statement cases of AuthorizeQueryForRwUser (translated in Gen_Privileges.v, frozen in Privileges.v) ---- *)
 Record rwrule := mk_rwrule { rw_type : string; rw_action : string }.
 Definition rwrule_eqb (a b : rwrule) : bool := String.eqb (rw_type a) (rw_type b) && String.eqb (rw_action a) (rw_action b).
@@ -526,14 +580,6 @@ Definition rw_marker (rules : list rwrule) (ty : string) (special : bool) : list
 (* after the arms: every entry of RequiredPrivileges must carry Rwuser: true *)
 Definition rw_tail_expected : string :=
   "set privs, err := stmt.RequiredPrivileges(); if err != nil { return return err }; range privs { if !p.Rwuser { refuse } }".
-
-(* Sources.RequiredPrivileges: read on the database of every measurement; SELECT adds write on the target's database;
-   CREATE CONTINUOUS QUERY: read on its database and write on the target's if that names a database *)
-Definition sources_req (dbs : list string) : stmt := map (fun d => RDb d ReadPriv) dbs.
-Definition select_req (srcs : list string) (target : option string) : stmt :=
-  (sources_req srcs ++ match target with Some d => [RDb d WritePriv] | None => [] end)%list.
-Definition cq_req (db target : string) : stmt :=
-  RDb db ReadPriv :: (if String.eqb target "" then [] else [RDb target WritePriv]).
 
 (* a request path: prefix dispatch first, then the route the mux selected *)
 Definition serve_path (sh : shape) (cfg : config) (guards : list string) (ps : list prefix_rule) (us : list user)
